@@ -15,13 +15,15 @@ tvars == <<vars, l>>
 
 BindObserved(e) ==
   /\ clog' = e.st.clog /\ segs' = e.st.segs /\ next' = e.st.next /\ hw' = e.st.hw
-  /\ cache' = e.st.cache /\ cacheOn' = e.st.cacheOn /\ paused' = e.st.paused
+  /\ cache' = e.st.cache /\ cacheOn' = e.st.cacheOn /\ segCap' = e.st.segCap /\ paused' = e.st.paused
+  /\ ldr' = e.st.ldr /\ ocache' = e.st.ocache
   /\ obs' = e.obs
 
 TraceInit ==
   LET e == Trace[1] IN
   /\ clog = e.st.clog /\ segs = e.st.segs /\ next = e.st.next /\ hw = e.st.hw
-  /\ cache = e.st.cache /\ cacheOn = e.st.cacheOn /\ paused = e.st.paused
+  /\ cache = e.st.cache /\ cacheOn = e.st.cacheOn /\ segCap = e.st.segCap /\ paused = e.st.paused
+  /\ ldr = e.st.ldr /\ ocache = e.st.ocache
   /\ obs = e.obs
   /\ pend = [c \in Clients |-> NoPend] /\ cur = [k \in Keys |-> -1] /\ gen = 0
   /\ fails = {} /\ cln = NoCln
@@ -55,6 +57,7 @@ Hidden(e) ==
     [] e.a = "Fetch" -> /\ gen' = IF paused /\ ~(cacheOn /\ Has(cache, e.args.k)) THEN gen + 1 ELSE gen
                         /\ UNCHANGED <<pend, cur, fails, cln>>
     [] e.a = "Restart" -> gen' = 0 /\ UNCHANGED <<pend, cur, fails, cln>>
+    [] e.a = "Handover" -> gen' = gen + 1 /\ UNCHANGED <<pend, cur, fails, cln>>
     [] e.a = "CleanBegin" -> /\ cln' = [on |-> TRUE, dead |-> CompactDead, n |-> Len(segs)]
                              /\ UNCHANGED <<pend, cur, gen, fails>>
     [] e.a = "CleanEnd" -> cln' = NoCln /\ UNCHANGED <<pend, cur, gen, fails>>
@@ -65,6 +68,7 @@ PropOf(e) ==
     [] e.a = "Fetch" -> P_Fetch(e.args.k)
     [] e.a = "FetchBegin" -> P_FetchBegin(e.args.c, e.args.k)
     [] e.a = "FetchEnd" -> P_FetchEnd(e.args.c)
+    [] e.a = "FetchOther" -> P_FetchOther(e.args.k)
     [] OTHER -> TRUE
 
 ImplOf(e) ==
@@ -77,8 +81,11 @@ ImplOf(e) ==
     [] e.a = "CleanBegin" -> DoCleanBegin
     [] e.a = "CleanEnd" -> DoCleanEnd
     [] e.a = "Pause" -> DoPause
+    [] e.a = "Roll" -> DoRoll
+    [] e.a = "Handover" -> DoHandover
+    [] e.a = "FetchOther" -> DoFetchOther(e.args.k)
     [] e.a = "Restart" -> DoRestart
-    [] OTHER -> UNCHANGED <<clog, segs, next, hw, cache, cacheOn, paused>>
+    [] OTHER -> UNCHANGED <<clog, segs, next, hw, cache, cacheOn, segCap, ldr, ocache, paused>>
 
 TraceNext ==
   /\ Trace[l].a # "End"
